@@ -324,7 +324,12 @@ class _RetryState:
         )
         sleep_s = strategy(ctx)
 
-        if not math.isfinite(sleep_s):
+        try:
+            finite = math.isfinite(sleep_s)
+        except OverflowError:
+            # An int too large for a float is still a finite number of seconds.
+            finite = True
+        if not finite:
             sleep_s = 0.0
 
         sleep_s = max(0.0, sleep_s)
